@@ -1,5 +1,9 @@
 (* Extraction of the codec models (ExtrOcamlBasic only; numbers stay positive/Z/N/nat). *)
 From Coq Require Import Extraction ExtrOcamlBasic.
-From AN Require Import Model.Lines.
+From AN Require Import Model.Lines Model.Framed.
 Extraction Language OCaml.
-Extraction "../ocaml/codec/gen.ml" run_lines encode valid.
+Extraction "../ocaml/codec/gen.ml"
+  run_lines encode valid
+  rinit run_read Lines.decode Lines.decode_eof lp_decode lp_decode_eof lpd_decode_eof
+  bytes_decode bytes_decode_eof
+  run_write lines_encode bytes_encode lp_encode.
